@@ -19,6 +19,8 @@ pub struct Campaign {
     pub pipes: Vec<Pipe>,
     /// optional filter on trees
     pub filter: Option<fn(&Tree) -> bool>,
+    /// optional replacement for the deviation-bounded rendering enumeration
+    pub choice_gen: Option<fn(&spec::Renderer, &Tree) -> Vec<Vec<u8>>>,
 }
 
 /// extra per-text hook: (tree, text, is_default_rendering, table, acc)
@@ -85,7 +87,13 @@ pub fn run_campaign(c: &Campaign, rep: &mut Report, prop: &'static str, extra: O
                 let vars = tree.vars();
                 let expect = tree.eval_sym(&vars, &table);
                 let expect_nf = nf_ac(&expect, &table);
-                let cvs = if c.max_dev == 0 { vec![vec![]] } else { choice_vectors(&r, &tree, c.max_dev, c.max_extra) };
+                let cvs = if let Some(g) = c.choice_gen {
+                    g(&r, &tree)
+                } else if c.max_dev == 0 {
+                    vec![vec![]]
+                } else {
+                    choice_vectors(&r, &tree, c.max_dev, c.max_extra)
+                };
                 for cv in &cvs {
                     let toks = r.tokens(&tree, cv);
                     for &blank in &c.blanks {
